@@ -298,11 +298,13 @@ async def _run_app(
 
     runner = AppRunner(app, **kwargs)
 
-    await runner.setup()
-
     sites: list[BaseSite] = []
 
     try:
+        # Inside the try: a startup that fails half-way must still run the
+        # cleanup of the contexts that had already been entered.
+        await runner.setup()
+
         if host is not None:
             if isinstance(host, str):
                 sites.append(
